@@ -420,3 +420,89 @@ func TestVerifC09Rot(t *testing.T) {
 	}
 	rt.Out(rt.M{"kind": "summary", "behaviours": len(in.Behaviours), "matched": okB, "steps": steps})
 }
+
+// defaultCounterTime is the library's own clock, captured before any test replaces it.
+var defaultCounterTime = counter.CounterTime
+
+// TestVerifC09RealClock: the span computed with the library's OWN clock (not a mocked one) in a process
+// whose local time zone is far from UTC, at a moment when the local calendar date differs from the UTC date.
+func TestVerifC09RealClock(t *testing.T) {
+	defer rt.Flush()
+	saved := time.Local
+	defer func() { time.Local = saved; counter.CounterTime = func() time.Time { return time.Now().UTC() } }()
+	for i := 0; i < 14; i++ {
+		t1 := time.Now().UTC()
+		// a zone whose calendar date differs from the UTC date right now
+		off := 13
+		if t1.Hour() < 12 {
+			off = -13
+		}
+		time.Local = time.FixedZone("verif", off*3600)
+		counter.CounterTime = defaultCounterTime
+		dir := t.TempDir()
+		telemetry.Default = telemetry.NewDir(dir)
+		w := i % 7
+		setWeekends(t, []byte{byte('0' + w), '\n'}, false)
+		b, e, err := counter.VCounterSpan()
+		t2 := time.Now().UTC()
+		rec := rt.M{"kind": "obs", "now": t1.Unix(), "now2": t2.Unix(), "byte": int('0' + w), "ok": err == nil, "begin": int64(-1), "end": int64(-1), "missing": false, "realclock": true, "zone": off}
+		if err == nil {
+			if b.Unix()%86400 != 0 || e.Unix()%86400 != 0 {
+				rec["begin"], rec["end"] = int64(-2), int64(-2)
+			} else {
+				rec["begin"], rec["end"] = dayOf(b), dayOf(e)
+			}
+		}
+		rt.Out(rec)
+	}
+}
+
+type uplVec struct {
+	ID    int   `json:"id"`
+	Base  int64 `json:"base"`
+	E1    int64 `json:"e1"`
+	E2    int64 `json:"e2"`
+	V1    int64 `json:"v1"`
+	V2    int64 `json:"v2"`
+	Start int64 `json:"start"`
+}
+
+// TestVerifC09Upl replays the vectors of CalendarUpl.tla: two programs' count files that begin on the same
+// day (same date in the name) with different recorded ends; one uploader run; in both name orders.
+func TestVerifC09Upl(t *testing.T) {
+	defer rt.Flush()
+	var in struct {
+		Vectors []uplVec `json:"vectors"`
+	}
+	if err := rt.In(&in); err != nil {
+		t.Skip(err)
+	}
+	for _, v := range in.Vectors {
+		for order := 0; order < 2; order++ {
+			dir := t.TempDir()
+			os.MkdirAll(filepath.Join(dir, "local"), 0777)
+			os.WriteFile(filepath.Join(dir, "mode"), []byte("local 2020-01-01"), 0666)
+			names := [2]string{"alpha", "beta"}
+			if order == 1 {
+				names = [2]string{"zeta", "beta"} // the first program's file sorts after the second's
+			}
+			begin := at(v.Base, 0)
+			for k, prog := range names {
+				e, val := v.E1, v.V1
+				if k == 1 {
+					e, val = v.E2, v.V2
+				}
+				meta := rt.V1Meta(begin.Format(time.RFC3339), at(v.Base+e, 0).Format(time.RFC3339), "example.com/"+prog, "v1.0.0", "go1.21.0", "linux", "amd64")
+				data, err := rt.WriteV1(meta, []rt.V1Entry{{Name: "c09", Value: uint64(val)}})
+				if err != nil {
+					t.Fatal(err)
+				}
+				os.WriteFile(filepath.Join(dir, "local", fmt.Sprintf("%s@v1.0.0-go1.21.0-linux-amd64-%s.v1.count", prog, begin.Format("2006-01-02"))), data, 0666)
+			}
+			start := time.Unix(v.Base*86400+v.Start, 0).UTC()
+			err := upload.Run(upload.RunConfig{TelemetryDir: dir, StartTime: start})
+			disk, reports, problems := project(dir)
+			rt.Out(rt.M{"kind": "upl", "id": v.ID, "order": order, "disk": disk, "reports": reports, "problems": problems, "err": fmt.Sprint(err)})
+		}
+	}
+}
